@@ -56,6 +56,12 @@ structure Acc where
   specfail : Nat := 0
   out : Array String := #[]
   classes : List (String × Nat) := []
+  /-- model-branch coverage of the correspondence: (transaction kind, model outcome) → count -/
+  cov : List (String × Nat) := []
+
+def Acc.cover (a : Acc) (key : String) : Acc :=
+  let cnt := match a.cov.find? (fun p => p.1 == key) with | some p => p.2 | none => 0
+  { a with cov := (key, cnt + 1) :: a.cov.filter (fun p => p.1 != key) }
 
 def Acc.report (a : Acc) (kind : String) (prop : String) (what : String) (line : String) : Acc :=
   let key := kind ++ "|" ++ prop ++ "|" ++ what
